@@ -1,5 +1,6 @@
 import QuicModel.Dc.Packets
 import QuicModel.Dc.SecretMap
+import QuicProofs.Lemmas.DcPackets
 /-
   C18 — dc packets round-trip; only authenticated packets are acted upon.
 
@@ -10,7 +11,165 @@ import QuicModel.Dc.SecretMap
   after `authenticate`) is proved for all field values, all byte strings and all map states.
 -/
 namespace Quic.Proofs.C18
-open Quic Quic.Dc.Packets Quic.Dc.SecretMap
+open Quic Quic.Codec Quic.Dc Quic.Dc.Packets Quic.Dc.SecretMap Quic.Proofs.DcPackets
+
+/-! ### every packet form decodes back to exactly what was encoded
+
+  `…WF` (QuicProofs.Lemmas.DcPackets) are the ranges of the Rust types: 16-byte credential ids,
+  `VarInt` fields ≤ 2^62-1, queue ids < 2^60, a u16 port, a u32 retransmission offset (zero on
+  unreliable streams, original + offset still a `VarInt`), 16-byte auth tags, and the datagram
+  encoder's API precondition (ack-eliciting ⇒ packet number present). The view returned by the
+  decoder projects back (`toIn`) to every encoder argument incl. the sealed payload and tag, its
+  `header` is exactly the byte range handed to the AEAD / MAC, and the rest of the buffer is untouched. -/
+
+theorem dc_roundtrip_stream (i : StreamIn) (wf : StreamWF i) (rest : List Nat) :
+    ∃ v, decodeStream (encodeStream i ++ rest) = .ok (v, rest) ∧ v.toIn = i ∧ v.header = encStreamHeader i :=
+  roundtrip_stream i wf rest
+
+theorem dc_roundtrip_datagram (i : DatagramIn) (wf : DatagramWF i) (rest : List Nat) :
+    ∃ v, decodeDatagram (encodeDatagram i ++ rest) = .ok (v, rest) ∧ v.toIn = i ∧ v.header = encDatagramHeader i :=
+  roundtrip_datagram i wf rest
+
+theorem dc_roundtrip_control (i : ControlIn) (wf : ControlWF i) (rest : List Nat) :
+    ∃ v, decodeControl (encodeControl i ++ rest) = .ok (v, rest) ∧ v.toIn = i ∧ v.header = encControlHeader i :=
+  roundtrip_control i wf rest
+
+theorem dc_roundtrip_unknown_path_secret (i : SecretIn) (wf : SecretWF i) (hk : i.kind = .unknownPathSecret)
+    (rest : List Nat) :
+    ∃ v, decodeSecret .unknownPathSecret (encodeSecret i ++ rest) = .ok (v, rest) ∧ v.toIn = i
+      ∧ v.header = encSecretHeader i := hk ▸ roundtrip_secret i wf rest
+
+theorem dc_roundtrip_stale_key (i : SecretIn) (wf : SecretWF i) (hk : i.kind = .staleKey) (rest : List Nat) :
+    ∃ v, decodeSecret .staleKey (encodeSecret i ++ rest) = .ok (v, rest) ∧ v.toIn = i
+      ∧ v.header = encSecretHeader i := hk ▸ roundtrip_secret i wf rest
+
+theorem dc_roundtrip_replay_detected (i : SecretIn) (wf : SecretWF i) (hk : i.kind = .replayDetected) (rest : List Nat) :
+    ∃ v, decodeSecret .replayDetected (encodeSecret i ++ rest) = .ok (v, rest) ∧ v.toIn = i
+      ∧ v.header = encSecretHeader i := hk ▸ roundtrip_secret i wf rest
+
+/-- the tag dispatcher (`packet::Packet::decode_parameterized_mut`) sends every encoded packet of
+    every kind to its own decoder -/
+theorem dc_roundtrip_dispatch :
+    (∀ (i : StreamIn) (_ : StreamWF i) (rest : List Nat),
+      ∃ v, decodeAny (encodeStream i ++ rest) = .ok (.stream v, rest) ∧ v.toIn = i) ∧
+    (∀ (i : DatagramIn) (_ : DatagramWF i) (rest : List Nat),
+      ∃ v, decodeAny (encodeDatagram i ++ rest) = .ok (.datagram v, rest) ∧ v.toIn = i) ∧
+    (∀ (i : ControlIn) (_ : ControlWF i) (rest : List Nat),
+      ∃ v, decodeAny (encodeControl i ++ rest) = .ok (.control v, rest) ∧ v.toIn = i) ∧
+    (∀ (i : SecretIn) (_ : SecretWF i) (rest : List Nat),
+      ∃ v, decodeAny (encodeSecret i ++ rest) = .ok (.secret v, rest) ∧ v.toIn = i) :=
+  ⟨roundtrip_any_stream, roundtrip_any_datagram, roundtrip_any_control, roundtrip_any_secret⟩
+
+/-- non-vacuity: a reliable bidirectional stream packet with every optional field, boundary varints
+    (63/64, 16383/16384, 2^30, 2^62-1), a retransmission offset; it is well-formed and round-trips -/
+example :
+    let i : StreamIn := ⟨false, true, ⟨List.replicate 16 0xab, 4611686018427387903⟩, some 64, ⟨1073741824, true, true⟩,
+      16383, 7, 16384, 63, some 1073741823, [1, 2, 3], [4, 5], [6, 7, 8, 9], List.replicate 16 0xcd⟩
+    StreamWF i ∧ (decodeStream (encodeStream i ++ [0xee])).toOption.map (fun x => (x.1.toIn, x.2)) = some (i, [0xee]) := by
+  refine ⟨⟨by decide, by decide, ?_, by decide, by decide, by decide, by decide, by decide, by decide, by decide, ?_,
+    by decide, by decide, by decide, by decide⟩, by decide⟩
+  · intro x h; cases h; decide
+  · intro x h; cases h; decide
+
+example :
+    let i : DatagramIn := ⟨false, ⟨List.replicate 16 1, 16384⟩, 65535, some 64, some 4611686018427387903, [1], [2, 3],
+      [4, 5, 6], List.replicate 16 9⟩
+    DatagramWF i ∧ (decodeDatagram (encodeDatagram i ++ [7])).toOption.map (fun x => (x.1.toIn, x.2)) = some (i, [7]) := by
+  refine ⟨⟨by decide, by decide, by decide, ?_, ?_, by decide, by decide, by decide, by decide, by decide, by decide⟩,
+    by decide⟩
+  · intro x h; cases h; decide
+  · intro x h; cases h; decide
+
+example :
+    let i : SecretIn := ⟨.staleKey, List.replicate 16 3, 0, some 16384, 1073741824, List.replicate 16 8⟩
+    SecretWF i ∧ (decodeSecretControl (encodeSecret i)).toOption.map (fun x => (x.1.toIn, x.2)) = some (i, []) := by
+  refine ⟨⟨by decide, by decide, ?_, by decide, by decide, by decide⟩, by decide⟩
+  intro x h; cases h; decide
+
+/-! ### the independent field tables (Wireshark dissector) describe the same bytes -/
+
+theorem encode_eq_spec_stream (i : StreamIn) : Spec.emit (Spec.stream i) = encodeStream i :=
+  Quic.Proofs.DcPackets.encode_eq_spec_stream i
+theorem encode_eq_spec_datagram (i : DatagramIn) : Spec.emit (Spec.datagram i) = encodeDatagram i :=
+  Quic.Proofs.DcPackets.encode_eq_spec_datagram i
+theorem encode_eq_spec_control (i : ControlIn) : Spec.emit (Spec.control i) = encodeControl i :=
+  Quic.Proofs.DcPackets.encode_eq_spec_control i
+theorem encode_eq_spec_secret (i : SecretIn) : Spec.emit (Spec.secret i) = encodeSecret i :=
+  Quic.Proofs.DcPackets.encode_eq_spec_secret i
+
+/-! ### arbitrary bytes: the decoders are total and consume exactly header ++ payload ++ tag -/
+
+/-- every byte string gets an answer from the tag dispatcher: a packet or one of the two error kinds
+    (the model functions are total by construction; panic-freedom of the Rust decoders is what the
+    differential fuzzing checks) -/
+theorem dc_decode_total (b : List Nat) :
+    (∃ v r, decodeAny b = .ok (v, r)) ∨ decodeAny b = .error .eof ∨ decodeAny b = .error .invariant :=
+  decode_total b
+
+/-- what a successful decode consumed is exactly the packet's header, payload and auth tag; the
+    remainder of the buffer is returned untouched -/
+theorem dc_decode_consumes (b r : List Nat) (v : AnyView) (h : decodeAny b = .ok (v, r)) :
+    b = AnyView.wire v ++ r := decodeAny_consumes b r v h
+
+/-! ### every wire byte is covered by the AAD, the ciphertext or the tag
+
+  `…CallOfWire b` = the call the receiver makes into the AEAD / MAC for a datagram `b` that is exactly
+  one packet. The call's inputs concatenate to `b`: two different wire images never lead to the same
+  call, so under the ideal-primitive assumption every mutation of a sealed packet is rejected.
+  FULL STATEMENT (property text): this holds for every packet kind. It is FALSE for two forms:
+  UnknownPathSecret (only credential id + token are compared) and retransmitted stream packets (the
+  recovery bit is cleared before the check) — counterexamples below, confirmed on the real code. -/
+
+theorem dc_every_byte_authenticated_datagram (b b' : List Nat) (c : CryptoCall)
+    (h : datagramCallOfWire b = some c) (h' : datagramCallOfWire b' = some c) : b = b' := by
+  rw [← datagram_call_covers b c h, ← datagram_call_covers b' c h']
+
+theorem dc_every_byte_authenticated_control (b b' : List Nat) (c : CryptoCall)
+    (h : controlCallOfWire b = some c) (h' : controlCallOfWire b' = some c) : b = b' := by
+  rw [← control_call_covers b c h, ← control_call_covers b' c h']
+
+theorem dc_every_byte_authenticated_stale_key (b b' : List Nat) (c : CryptoCall)
+    (h : secretCallOfWire .staleKey b = some c) (h' : secretCallOfWire .staleKey b' = some c) : b = b' := by
+  rw [← secret_call_covers .staleKey (by decide) b c h, ← secret_call_covers .staleKey (by decide) b' c h']
+
+theorem dc_every_byte_authenticated_replay_detected (b b' : List Nat) (c : CryptoCall)
+    (h : secretCallOfWire .replayDetected b = some c) (h' : secretCallOfWire .replayDetected b' = some c) : b = b' := by
+  rw [← secret_call_covers .replayDetected (by decide) b c h, ← secret_call_covers .replayDetected (by decide) b' c h']
+
+/-- stream packets that are not retransmissions (offset field zero): application packets and probes -/
+theorem dc_every_byte_authenticated_stream_partial (b b' : List Nat) (c : CryptoCall)
+    (h : streamCallOfWire false b = some c) (h' : streamCallOfWire false b' = some c) : b = b' := by
+  rw [← stream_call_covers b c h, ← stream_call_covers b' c h']
+
+/-- the headline form: a sealed packet `b` and any other datagram `b'` — the receiver's call for `b'`
+    is not the sealer's call, so the ideal primitive refuses it (datagram shown; the other covered
+    kinds follow from their injectivity theorems in the same way) -/
+theorem dc_every_byte_authenticated (b b' : List Nat) (c c' : CryptoCall)
+    (hb : datagramCallOfWire b = some c) (hb' : datagramCallOfWire b' = some c') (hne : b' ≠ b) :
+    idealOpen [c] (.ok c') = .error .invalidTag := by
+  have : c' ≠ c := fun e => hne (dc_every_byte_authenticated_datagram b' b c (e ▸ hb') hb)
+  simp [idealOpen, this]
+
+/-- COUNTEREXAMPLE (UnknownPathSecret): two packets that differ in the queue id lead to the same
+    token comparison — the queue id is not authenticated. Replayed on the real code:
+    `mutscan x1 ups 128 <cid> 0 5` reports the queue-id byte as accepted. -/
+theorem dc_every_byte_authenticated_unknown_path_secret_counterexample :
+    let b := [100] ++ List.replicate 16 7 ++ [0] ++ [5] ++ List.replicate 16 9
+    let b' := [100] ++ List.replicate 16 7 ++ [0] ++ [6] ++ List.replicate 16 9
+    b ≠ b' ∧ (secretCallOfWire .unknownPathSecret b).isSome = true
+      ∧ secretCallOfWire .unknownPathSecret b = secretCallOfWire .unknownPathSecret b' := by
+  decide
+
+/-- COUNTEREXAMPLE (retransmitted stream packet): the same packet with and without the
+    IS_RECOVERY_PACKET bit leads to the same AEAD call (`remove_retransmit` clears the bit first).
+    Replayed on the real code: `mut x0:16 stream 128 retx-r …` is accepted. -/
+theorem dc_every_byte_authenticated_stream_retx_counterexample :
+    let i : StreamIn := ⟨false, true, ⟨List.replicate 16 1, 2⟩, none, ⟨3, true, true⟩, 5, 4, 2, 7, none, [], [],
+      [0xaa, 0xbb], List.replicate 16 9⟩
+    let b := encodeStream i
+    let b' := encodeStream { i with recovery := false }
+    b ≠ b' ∧ (streamCallOfWire true b).isSome = true ∧ streamCallOfWire true b = streamCallOfWire true b' := by
+  decide
 
 /-! ### the path-secret map: only authenticated secret-control packets have an effect -/
 
